@@ -56,7 +56,7 @@ func (p *P) mEmit() M {
 
 func runC05(p *P, r *R) {
 	w := p.wakeRoles()
-	prod, cons := p.queueRoles()
+	_, cons := p.queueRoles()
 	r.role("markWorking (CAS flag 0->1)", p.names(w.markWorking))
 	r.role("markNotWorking (atomic store to flag)", p.names(w.markNotWorking))
 	r.role("wake-up routine", p.names(w.wake))
@@ -70,30 +70,31 @@ func runC05(p *P, r *R) {
 	}
 	mWake := p.mCall(wakeNames...)
 
-	// R05.1
+	// R05.1 (a wrapper that hands the enqueue's error back to its caller is an enqueue site of that caller)
 	nPut := 0
+	fam, wrappers := p.putFamily()
+	r.role("enqueue wrappers", p.names(wrappers))
+	mFam := p.mPutFamily()
 	for _, f := range p.fnList {
-		if inFns(f, prod) {
+		if inFns(f, fam) {
 			continue
 		}
-		for _, pr := range prod {
-			for _, ci := range findInstrs(f, p.mCall(p.fname(pr))) {
-				call, ok := ci.(*ssa.Call)
-				if !ok {
-					continue
-				}
-				nPut++
-				fn := p.fname(f)
-				res := p.mustPass(f, []Point{pointOf(call)},
-					func(in ssa.Instruction) bool { return p.evMust(in, mWake, 1) },
-					func(b *ssa.BasicBlock, i int) bool { return !edgeKnownNonNil(b, i, call) },
-					func(ret *ssa.Return, pred *ssa.BasicBlock) bool { return !isErrorExit(ret) })
-				r.ob("R05.1", fn+": a successful enqueue is followed by a wake-up attempt before any success exit", p.ipos(call), res.OK, true,
-					"path from the enqueue to a non-error return without a call reaching the wake-up routine: %s", p.pathString(res))
+		for _, ci := range findInstrs(f, mFam) {
+			call, ok := ci.(*ssa.Call)
+			if !ok {
+				continue
 			}
+			nPut++
+			fn := p.fname(f)
+			res := p.mustPass(f, []Point{pointOf(call)},
+				func(in ssa.Instruction) bool { return p.evMust(in, mWake, 1) },
+				func(b *ssa.BasicBlock, i int) bool { return !edgeKnownNonNil(b, i, call) },
+				func(ret *ssa.Return, pred *ssa.BasicBlock) bool { return !isErrorExit(ret) })
+			r.ob("R05.1", fn+": a successful enqueue is followed by a wake-up attempt before any success exit", p.ipos(call), res.OK, true,
+				"path from the enqueue to a non-error return without a call reaching the wake-up routine: %s", p.pathString(res))
 		}
 	}
-	r.count("R05.1", "enqueue call sites outside the producer", nPut, 3)
+	r.count("R05.1", "enqueue call sites outside the producer family", nPut, 2)
 
 	// R05.2
 	emit := p.mEmit()
